@@ -43,6 +43,8 @@ pub struct Ctx {
     pub samples: Vec<String>,
     pub n_ops: u64,
     pub n_oracle_fail: u64,
+    /// rows written per oracle key (a flood of one known finding must not hide other violations)
+    per_key: std::collections::HashMap<String, u32>,
     out: String,
     distinct: std::collections::HashSet<u64>,
     /// when set, the property prefix ("Cxx:") of oracle keys is replaced by this id
@@ -73,7 +75,7 @@ impl Ctx {
         Ctx { tier: tier.clone(), seed, rng: Rng(seed ^ 0x5EED_0000_0000_0000), replay,
               ops: f("ops.txt"), imp: f("impl.txt"), oracle: f("oracle.txt"),
               stats: BTreeMap::new(), samples: vec![], n_ops: 0, n_oracle_fail: 0, out: out.into(),
-              distinct: Default::default(), id_override: None }
+              distinct: Default::default(), id_override: None, per_key: Default::default() }
     }
     pub fn thorough(&self) -> bool { self.tier == "thorough" }
     /// record one operation for the model driver and the implementation's canonical result
@@ -105,7 +107,8 @@ impl Ctx {
         };
         let key = key.as_str();
         self.n_oracle_fail += 1;
-        if self.n_oracle_fail <= 200 {
+        let seen = { let c = self.per_key.entry(key.to_string()).or_insert(0); *c += 1; *c };
+        if seen <= 3 && self.per_key.len() <= 400 {
             let mut rp = format!("@seed {} {}", self.seed, self.tier);
             for l in replay { rp.push_str("\\n"); rp.push_str(l); }
             writeln!(self.oracle, "{key}\t{what}\t{rp}").unwrap();
